@@ -169,10 +169,63 @@ SsaVerdict(it) ==
      ELSE IF badPhi # {} THEN "bad:phi-argument-not-defined-along-a-predecessor:" \o (CHOOSE x \in badPhi : TRUE)[3]
      ELSE "ok"
 
+(* ---- C38: data-flow facts by their path definitions.                                                         *)
+(*   [t |-> "dflow", blocks, edges, out <<names live at the exits>>,                                              *)
+(*    rd <<[b, i, v, defs <<<<b, i>>..>>]>>, du <<[sb, si, sv, db, di, dk]>>, live <<[b, i, vin, vout]>>]          *)
+(* Points are <<block index, k>> with k assign blocks of the block already executed (k = 0 .. length).            *)
+DfWrites(ab) == {ab[i].d.n : i \in {j \in 1..Len(ab) : ab[j].d.k = "id"}}
+DfReadsOf(a) == {v \in IdsOf(a.s) \cup (IF a.d.k = "mem" THEN IdsOf(a.d.p) ELSE {}) : ~IsLocName(v)}      \* locations are constants
+DfReads(ab) == UNION {DfReadsOf(ab[i]) : i \in 1..Len(ab)}
+BIdx(B, name) == CHOOSE b \in 1..Len(B) : B[b].loc = name
+SuccB(it, b) == {BIdx(it.blocks, n) : n \in {x \in SuccN(it.edges, it.blocks[b].loc) : \E c \in 1..Len(it.blocks) : it.blocks[c].loc = x}}
+(* points reachable from the set S along executions on which v is not (re)defined *)
+RECURSIVE FlowNoDef(_, _, _)
+FlowNoDef(it, S, v) ==
+  LET B == it.blocks
+      step(p) == IF p[2] < Len(B[p[1]].abs)
+                 THEN (IF v \in DfWrites(B[p[1]].abs[p[2] + 1]) THEN {} ELSE {<<p[1], p[2] + 1>>})
+                 ELSE {<<s, 0>> : s \in SuccB(it, p[1])}
+      nxt == S \cup UNION {step(p) : p \in S}
+  IN IF nxt = S THEN S ELSE FlowNoDef(it, nxt, v)
+AllPoints(it) == UNION {{<<b, k>> : k \in 0..Len(it.blocks[b].abs)} : b \in 1..Len(it.blocks)}
+AllDefs(it) == UNION {UNION {{<<b, i, v>> : v \in DfWrites(it.blocks[b].abs[i + 1])} : i \in 0..(Len(it.blocks[b].abs) - 1)} : b \in 1..Len(it.blocks)}
+(* definition <<b, i, v>> reaches point p: some execution from just after it to p does not redefine v *)
+ReachSet(it, d) == FlowNoDef(it, {<<d[1], d[2] + 1>>}, d[3])
+(* v is live at p: some execution from p reads v before writing it (or leaves the function with v observed) *)
+LiveAt(it, p, v) ==
+  \E q \in FlowNoDef(it, {p}, v) :
+     IF q[2] < Len(it.blocks[q[1]].abs) THEN v \in DfReads(it.blocks[q[1]].abs[q[2] + 1])
+     ELSE SuccB(it, q[1]) = {} /\ \E k \in 1..Len(it.out) : it.out[k] = v
+DflowVerdict(it) ==
+  LET B == it.blocks
+      defs == AllDefs(it)
+      reach == [d \in defs |-> ReachSet(it, d)]
+      rdExp == UNION {{<<p[1], p[2], d[3], d[1], d[2]>> : p \in reach[d]} : d \in defs}
+      rdObs == UNION {{<<BIdx(B, it.rd[k].b), it.rd[k].i, it.rd[k].v, BIdx(B, it.rd[k].defs[j][1]), it.rd[k].defs[j][2]>>
+                        : j \in 1..Len(it.rd[k].defs)} : k \in 1..Len(it.rd)}
+      duExp == UNION {UNION {{<<d[1], d[2], d[3], p[1], p[2], k>> :
+                               k \in {kk \in 1..Len(B[p[1]].abs[p[2] + 1]) : d[3] \in DfReadsOf(B[p[1]].abs[p[2] + 1][kk])}}
+                             : p \in {q \in reach[d] : q[2] < Len(B[q[1]].abs)}} : d \in defs}
+      duObs == {<<BIdx(B, it.du[k].sb), it.du[k].si, it.du[k].sv, BIdx(B, it.du[k].db), it.du[k].di, it.du[k].dk>> : k \in 1..Len(it.du)}
+      vars == UNION {UNION {DfWrites(B[b].abs[a]) \cup DfReads(B[b].abs[a]) : a \in 1..Len(B[b].abs)} : b \in 1..Len(B)}
+              \cup {it.out[k] : k \in 1..Len(it.out)}
+      liveBad == {k \in 1..Len(it.live) :
+                    LET b == BIdx(B, it.live[k].b) i == it.live[k].i IN
+                    \/ {it.live[k].vin[j] : j \in 1..Len(it.live[k].vin)} # {v \in vars : LiveAt(it, <<b, i>>, v)}
+                    \/ {it.live[k].vout[j] : j \in 1..Len(it.live[k].vout)} # {v \in vars : LiveAt(it, <<b, i + 1>>, v)}}
+  IN IF rdObs # rdExp THEN "bad:reaching-definitions:" \o ToString(CHOOSE x \in (rdObs \ rdExp) \cup (rdExp \ rdObs) : TRUE)
+                             \o (IF rdObs \ rdExp # {} THEN ":reported-but-no-path" ELSE ":path-exists-but-not-reported")
+     ELSE IF duObs # duExp THEN "bad:def-use:" \o ToString(CHOOSE x \in (duObs \ duExp) \cup (duExp \ duObs) : TRUE)
+     ELSE IF liveBad # {} THEN LET k == CHOOSE x \in liveBad : TRUE b == BIdx(B, it.live[k].b) i == it.live[k].i IN
+                              "bad:liveness:" \o it.live[k].b \o ":" \o ToString(i) \o ":expected-in=" \o ToString({v \in vars : LiveAt(it, <<b, i>>, v)})
+                              \o ":expected-out=" \o ToString({v \in vars : LiveAt(it, <<b, i + 1>>, v)})
+     ELSE "ok"
+
 Verdict(it) ==
   CASE it.t = "symb" -> FirstBadSymb(it, 1)
     [] it.t = "equiv" -> FirstBadEquiv(it, 1)
     [] it.t = "lifted" -> TypeCheck(it)
     [] it.t = "ssa" -> SsaVerdict(it)
+    [] it.t = "dflow" -> DflowVerdict(it)
 Report == lo < hi \/ PrintT("V " \o ToString(cur) \o " " \o Verdict(Items[cur]))
 =============================================================================
